@@ -374,7 +374,7 @@ class PolyhedralTerm(Term):
         """
         ex = -term.constant
         for var in term.vars:  # noqa: VNE002
-            sv = sympy.symbols(var.name)
+            sv = sympy.Symbol(var.name)
             ex += sv * term.get_coefficient(var)
         return ex
 
@@ -475,7 +475,7 @@ class PolyhedralTerm(Term):
             raise ValueError("The number of equations does not match the number of variables to solve for")
         exprs = [PolyhedralTerm.to_symbolic(term) for term in context.terms]
         logging.debug("Solving %s", exprs)
-        vars_to_solve_symb = [sympy.symbols(var.name) for var in vars_to_solve]
+        vars_to_solve_symb = [sympy.Symbol(var.name) for var in vars_to_solve]
         sols = sympy.solve(exprs, *vars_to_solve_symb)
         logging.debug(sols)
         if len(sols) > 0:
